@@ -30,7 +30,13 @@ func c19gcd(a, b int64) int64 {
 	return a
 }
 
-func c19mod(a, n int64) int64 { r := a % n; if r < 0 { r += n }; return r }
+func c19mod(a, n int64) int64 {
+	r := a % n
+	if r < 0 {
+		r += n
+	}
+	return r
+}
 
 func c19powmod(x, y, m int64) int64 {
 	r := int64(1) % m
